@@ -1,6 +1,9 @@
 package engines
 
 import (
+	"bytes"
+	"compress/gzip"
+	"compress/zlib"
 	"errors"
 	"fmt"
 	"io"
@@ -813,8 +816,12 @@ func ksGenerate(s *simrt.Sim, nconn int, flashValid string) []*ksReq {
 		if ctype != "" {
 			hdr = append(hdr, [2]string{"Content-Type", ctype})
 		}
+		encodeTwice := false
 		if body != "" && s.Chance(250) {
 			hdr = append(hdr, [2]string{"Content-Encoding", "identity"}) // a token no decoder handles: the body is used as is
+		} else if body != "" && s.Chance(200) {
+			encodeTwice = true
+			hdr = append(hdr, [2]string{"Content-Encoding", "gzip, deflate"})
 		}
 		if s.Chance(300) {
 			hdr = append(hdr, [2]string{"Accept", simrt.PickS(s, "text/html", "application/json", "*/*;q=0.1, text/html",
@@ -844,6 +851,18 @@ func ksGenerate(s *simrt.Sim, nconn int, flashValid string) []*ksReq {
 			r.wire["BaseURL"] = "http://" + host // (TrustProxy is off: a forwarded scheme plays no part)
 		}
 		r.wire["Body"] = body
+		if body != "" && encodeTwice {
+			// compressed twice: the context decodes step by step and has to put the raw body back afterwards
+			var inner, outer bytes.Buffer
+			zw := zlib.NewWriter(&inner)
+			_, _ = zw.Write([]byte(body))
+			_ = zw.Close()
+			gw := gzip.NewWriter(&outer)
+			_, _ = gw.Write(inner.Bytes())
+			_ = gw.Close()
+			body = outer.String()
+			r.wire["BodyRaw"] = body
+		}
 		r.raw = harness.Req{Method: method, Path: path, Host: host, Headers: hdr, Body: []byte(body)}.Bytes()
 		out = append(out, r)
 	}
